@@ -6,6 +6,7 @@ import (
 	"fmt"
 	"math/rand/v2"
 	"runtime"
+	"strings"
 
 	"github.com/fxamacker/cbor"
 	"github.com/privacybydesign/gabi/big"
@@ -530,6 +531,29 @@ func c10Wire(x *c10env, jr *rand.Rand, honest *revocation.Update, win string, wa
 func c10Prepend(x *c10env, jr *rand.Rand, R int) {
 	r := x.r
 	pk := x.key.PK
+	// applyFresh applies update u (events [first..last]) to a fresh, never revoked witness issued at index first-1 and
+	// checks against the ledger that the witness arrives at accumulator `last` and satisfies u^e = nu there.
+	applyFresh := func(when string, u *revocation.Update, first, last int, desc string) bool {
+		w, err := x.rev.NewWitnessAt(first - 1)
+		if err != nil {
+			return false
+		}
+		var uerr error
+		pv, stack := mon.Try(func() { uerr = w.Update(pk, u) })
+		r.Eval("prepend-then-apply", outcome(uerr == nil && pv == nil, pv))
+		if pv != nil {
+			r.PanicSeen(mon.PanicSite(stack))
+			return false
+		}
+		acc := x.rev.Accs[last]
+		good := uerr == nil && w.SignedAccumulator != nil && w.SignedAccumulator.Accumulator != nil &&
+			w.SignedAccumulator.Accumulator.Index == acc.Index && new(big.Int).Exp(w.U, w.E, pk.N).Cmp(acc.Nu) == 0
+		if !good {
+			r.Violation("C10/authentic-update-unusable-"+strings.ReplaceAll(when, " ", "-"), fmt.Sprintf("an authentic update applied to a fresh non-revoked witness %s fails: err=%v (%s)", when, uerr, desc),
+				map[string]any{"desc": desc, "history": x.hist, "when": when, "update": dumpUpdate(u)})
+		}
+		return good
+	}
 	for trial := 0; trial < 60; trial++ {
 		b := R
 		a := 2 + jr.IntN(R-2) // update holds [a..b]
@@ -567,18 +591,56 @@ func c10Prepend(x *c10env, jr *rand.Rand, R int) {
 				desc += " gap"
 			}
 		}
+		// the receiving update may have been used before (its cached product then exists and must survive a refused prepend)
+		used := jr.IntN(2) == 0
+		if used {
+			if !applyFresh("before the prepend", base, a, b, desc) {
+				continue
+			}
+			desc += " (update used before)"
+		}
 		var el *revocation.EventList
 		via := "memory"
-		if jr.IntN(2) == 0 {
+		switch jr.IntN(4) {
+		case 0:
 			el = revocation.NewEventList(older...)
-		} else {
+		case 1, 2:
 			via = "json"
 			jb, err := json.Marshal(revocation.NewEventList(older...))
 			if err != nil {
 				continue
 			}
 			el = &revocation.EventList{}
+			if jr.IntN(2) == 0 {
+				via = "json with product"
+				el.ComputeProduct = true
+			}
 			if json.Unmarshal(jb, el) != nil {
+				continue
+			}
+		case 3:
+			via = "flattened json lists with product"
+			if len(older) < 2 {
+				continue
+			}
+			cut := 1 + jr.IntN(len(older)-1)
+			var parts []*revocation.EventList
+			for _, seg := range [][]*revocation.Event{older[:cut], older[cut:]} {
+				jb, err := json.Marshal(revocation.NewEventList(seg...))
+				if err != nil {
+					continue
+				}
+				pe := &revocation.EventList{ComputeProduct: true}
+				if json.Unmarshal(jb, pe) != nil {
+					continue
+				}
+				parts = append(parts, pe)
+			}
+			if len(parts) != 2 {
+				continue
+			}
+			var ferr error
+			if pvf, _ := mon.Try(func() { el, ferr = revocation.FlattenEventLists(parts) }); pvf != nil || ferr != nil {
 				continue
 			}
 		}
@@ -598,11 +660,18 @@ func c10Prepend(x *c10env, jr *rand.Rand, R int) {
 			if after != before {
 				r.Violation("C10/failed-prepend-changed-update", "Prepend returned an error but changed the update ("+desc+")", map[string]any{"desc": desc, "history": x.hist})
 			}
+			// ... nor may it have changed what the update does: a witness standing directly before its first event
+			// must still be brought to the update's accumulator
+			applyFresh("after a refused prepend", base, a, b, desc)
 			continue
 		}
 		if _, rerr := refimpl.UpdateAuthentic(pk, base.SignedAccumulator, base.Events); rerr != nil {
 			r.Violation("C10/prepend-produced-unauthentic-update", fmt.Sprintf("Prepend succeeded but the merged update is not authentic: %v (%s)", rerr, desc),
 				map[string]any{"desc": desc, "history": x.hist, "merged": dumpUpdate(base)})
+			continue
+		}
+		if len(base.Events) > 0 && base.Events[0].Index >= 1 {
+			applyFresh("after an accepted prepend", base, int(base.Events[0].Index), b, desc)
 		}
 	}
 }
